@@ -20,34 +20,33 @@ LifeVerdict(ev) ==
        ELSE IF ~FinalOK(run.f, owners1, {ev.life.extend[j] : j \in 1..Len(ev.life.extend)}) THEN "life-final"
        ELSE "ok"
 
+\* sequence of deviation kinds of one event (empty = conforms)
 Judge(ev) ==
-    IF ev.op = "reset" THEN "ok"
-    ELSE IF ~StateOK(ev.kind, ev.cmp, ev.cap, ev.pre) THEN "ok"      \* unjudgeable, see header
-    ELSE IF ~Pre(ev.op, ev.o, ev.x, ev.pre, ev.cap, ev.cmp, ev.kind) THEN "harness-pre"
-    ELSE IF "crash" \in DOMAIN ev THEN "crash"        \* a call inside the domain killed the process (no post-state)
-    ELSE IF ~Post(ev.op, ev.o, ev.x, ev.pre, ev.cap, ev.cmp, ev.post, ev.ret, ev.out) THEN "post"
-    ELSE IF ~StateOK(ev.kind, ev.cmp, ev.cap, ev.post) THEN "sorted"
-    ELSE IF ~ObsOK(ev.obs, ev.post, ev.cmp, ev.cap, ev.univ) THEN "obs"
-    ELSE IF "life" \in DOMAIN ev THEN LifeVerdict(ev)
-    ELSE "ok"
+    IF ev.op = "reset" THEN <<>>
+    ELSE IF ~StateOK(ev.kind, ev.cmp, ev.cap, ev.pre) THEN <<>>      \* unjudgeable, see header
+    ELSE IF ~Pre(ev.op, ev.o, ev.x, ev.pre, ev.cap, ev.cmp, ev.kind) THEN <<"harness-pre">>
+    ELSE IF "crash" \in DOMAIN ev THEN <<"crash">>      \* a call inside the domain killed the process (no post-state)
+    ELSE IF ~PostState(ev.op, ev.o, ev.x, ev.pre, ev.cap, ev.cmp, ev.post) THEN <<"post">>
+    ELSE IF ~StateOK(ev.kind, ev.cmp, ev.cap, ev.post) THEN <<"sorted">>
+    ELSE (IF PostRet(ev.op, ev.o, ev.x, ev.pre, ev.cap, ev.cmp, ev.ret, ev.out) THEN <<>> ELSE <<"ret">>)
+         \o ObsBad(ev.obs, ev.post, ev.cmp, ev.cap, ev.univ)
+         \o (IF "life" \in DOMAIN ev /\ LifeVerdict(ev) # "ok" THEN <<LifeVerdict(ev)>> ELSE <<>>)
 
-Expected(ev) ==
-    IF ev.op = "reset" THEN "-"
-    ELSE IF ~StateOK(ev.kind, ev.cmp, ev.cap, ev.pre) \/ ~Pre(ev.op, ev.o, ev.x, ev.pre, ev.cap, ev.cmp, ev.kind) THEN "-"
-    ELSE IF "crash" \in DOMAIN ev \/ ~Post(ev.op, ev.o, ev.x, ev.pre, ev.cap, ev.cmp, ev.post, ev.ret, ev.out)
-         THEN ToJson(Eff(ev.op, ev.o, ev.x, ev.pre, ev.cap, ev.cmp))
-    ELSE ToJson([a |-> [j \in 1..Len(ev.univ) |-> LkExp(ev.post.a, ev.cmp, ev.univ[j])],
-                 b |-> [j \in 1..Len(ev.univ) |-> LkExp(ev.post.b, ev.cmp, ev.univ[j])]])
+Expected(ev, v) ==
+    IF v \in {"post", "ret", "crash"} THEN ToJson(Eff(ev.op, ev.o, ev.x, ev.pre, ev.cap, ev.cmp))
+    ELSE IF v \in {"obs-find", "obs-bound", "obs-hfind", "obs-hbound"}
+         THEN ToJson([a |-> [j \in 1..Len(ev.univ) |-> LkExp(ev.post.a, ev.cmp, ev.univ[j])],
+                      b |-> [j \in 1..Len(ev.univ) |-> LkExp(ev.post.b, ev.cmp, ev.univ[j])]])
+    ELSE "-"
 
 Init == l = 1 /\ nbad = 0
 
 Next ==
     /\ l <= Len(Tr)
     /\ l' = l + 1
-    /\ LET v == Judge(Tr[l]) IN
-       IF v = "ok" THEN nbad' = nbad
-       ELSE /\ nbad' = nbad + 1
-            /\ PrintT(<<"DEV", l, v, Expected(Tr[l])>>)
+    /\ LET vs == Judge(Tr[l]) IN
+       /\ nbad' = nbad + Len(vs)
+       /\ \A j \in 1..Len(vs) : PrintT(<<"DEV", l, vs[j], Expected(Tr[l], vs[j])>>)
 
 Spec == Init /\ [][Next]_<<l, nbad>>
 Consumed == TLCGet("stats").diameter - 1 = Len(Tr)
